@@ -1,13 +1,373 @@
-//! C17 — not built yet.
-use crate::ev::Ctx;
-pub fn run(_ctx: &Ctx) -> i32 {
-    println!("INCONCLUSIVE property=C17 check not built yet");
-    2
+//! C17 — memory safety of the YAML parser binding and the decoders.
+//!
+//! One workload definition (`xtv_san workload`), three instruments:
+//!  1. AddressSanitizer + LeakSanitizer: the sanitizer binary (all of xt and its
+//!     dependencies instrumented, no custom allocator) runs the workload in
+//!     sharded short processes; any report fails the run.
+//!  2. Miri: a small subset of the same workload (uninitialised reads, invalid
+//!     `char`, aliasing of the raw read state), sharded over all cores.
+//!  3. valgrind memcheck on the shipped release binary (thorough tier).
+//! Plus the conservation invariant from the vhit counters: every Parser and
+//! Event created is dropped exactly once.
+
+use std::process::{Command, Stdio};
+
+use serde_json::{json, Value};
+
+use crate::corpus;
+use crate::ev::{self, Acc, Ctx, Finish, Violation};
+use crate::fmts::{Fmt, ALL};
+use crate::gen::GenOpts;
+use crate::mon::{OverReportReader, Sched, SchedReader};
+use crate::rng::Rng;
+use crate::run::{guarded, guarded_any};
+
+/// Runs the sanitizer workload in this process and returns counters.
+/// `miri`: a much smaller, cheaper selection.
+pub fn workload(seed: u64, shard: usize, of: usize, cases: usize, miri: bool) -> std::collections::BTreeMap<String, u64> {
+    let mut c: std::collections::BTreeMap<String, u64> = Default::default();
+    let mut bump = |k: &str, n: u64| *c.entry(k.to_string()).or_insert(0) += n;
+    xt::verif::reset_hits();
+    let opts = GenOpts { max_depth: 3, max_width: 3, ..GenOpts::common() };
+    let seeds = corpus::seeds();
+    for n in 0..cases {
+        let idx = n * of + shard;
+        let mut rng = Rng::derive(seed, 0xc17, idx as u64);
+        // input: YAML-ish corpus items, seeds, UTF-16/32 encodings of YAML text
+        let item = if miri { seeds[idx % seeds.len()].clone() } else { corpus::mixed_item(seed, idx, &opts) };
+        let mut input = item.bytes;
+        if input.len() > (if miri { 200 } else { 20_000 }) {
+            input.truncate(if miri { 200 } else { 20_000 });
+        }
+        if rng.chance(1, 6) {
+            if let Ok(t) = std::str::from_utf8(&input) {
+                let enc = crate::c07::ENCS[rng.below(4)];
+                input = enc.encode(t, rng.chance(1, 2));
+                bump("inputs_reencoded_utf16_32", 1);
+            }
+        }
+        bump("inputs", 1);
+        let to = ALL[idx % 4];
+        let trace = std::env::var("XTV_SAN_TRACE").is_ok();
+        if trace {
+            eprintln!("case idx={idx} input_hex={}", crate::model::hex(&input));
+        }
+        // 1. public API, explicit and detected, read sizes 1..17 and random
+        for from in [Some(Fmt::Yaml), None] {
+            let sched = match rng.below(3) {
+                0 => Sched::Fixed(1 + rng.below(17)),
+                1 => Sched::Random(rng.next(), 17),
+                _ => Sched::All,
+            };
+            let mut out = Vec::new();
+            let v = guarded(|| xt::translate_reader(SchedReader::new(&input, sched.clone()), from.map(Fmt::xt), to.xt(), &mut out));
+            bump(&format!("api_reader_{}", v.class()), 1);
+            let mut out = Vec::new();
+            let v = guarded(|| xt::translate_slice(&input, from.map(Fmt::xt), to.xt(), &mut out));
+            bump(&format!("api_slice_{}", v.class()), 1);
+            if miri {
+                break;
+            }
+        }
+        // 2. reader errors at (sampled) offsets
+        let n_faults = if miri { 1 } else { 6 };
+        for _ in 0..n_faults {
+            let k = rng.below(input.len() + 1);
+            let mut out = Vec::new();
+            let v = guarded(|| xt::translate_reader(SchedReader::new(&input, Sched::Fixed(1 + rng.below(9))).with_fault(k), Some(xt::Format::Yaml), to.xt(), &mut out));
+            bump(&format!("reader_fault_{}", v.class()), 1);
+        }
+        // 3. over-reporting readers, straight into the raw parser and the chunker (hook) and through the public API
+        let excesses: Vec<usize> = if miri { vec![1 + idx % 64] } else { (0..4).map(|j| 1 + (idx * 4 + j) % 64).collect() };
+        for ex in excesses {
+            let on_call = rng.below(3) as u64;
+            if trace {
+                eprintln!("  over-report excess={ex} on_call={on_call}");
+            }
+            let r = guarded_any(|| xt::verif::yaml_events_then_drop(OverReportReader { data: &input, pos: 0, excess: ex, on_call, calls: 0 }, usize::MAX));
+            bump(if r.is_ok() { "over_report_raw_parser_returned" } else { "over_report_raw_parser_panicked" }, 1);
+            let r = guarded_any(|| xt::verif::yaml_chunks(OverReportReader { data: &input, pos: 0, excess: ex, on_call, calls: 0 }, 3).len());
+            bump(if r.is_ok() { "over_report_chunker_returned" } else { "over_report_chunker_panicked" }, 1);
+            let mut out = Vec::new();
+            let v = guarded(|| xt::translate_reader(OverReportReader { data: &input, pos: 0, excess: ex, on_call, calls: 0 }, Some(xt::Format::Yaml), to.xt(), &mut out));
+            bump(&format!("over_report_api_{}", v.class()), 1);
+        }
+        // 4. early drop of the parser after every event count
+        let total = guarded_any(|| xt::verif::yaml_events_then_drop(SchedReader::new(&input, Sched::All), usize::MAX)).map(|x| x.0).unwrap_or(0);
+        let step = if miri { (total / 3).max(1) } else { 1 };
+        let mut e = 0;
+        while e <= total.min(if miri { 30 } else { 400 }) {
+            let _ = guarded_any(|| xt::verif::yaml_events_then_drop(SchedReader::new(&input, Sched::Fixed(1 + e % 7)), e));
+            bump("early_drop_points", 1);
+            e += step;
+        }
+        // detection abandons the chunker after one document
+        let _ = guarded_any(|| xt::verif::yaml_chunks(SchedReader::new(&input, Sched::Fixed(3)), 1).len());
+        bump("chunker_abandoned_after_one_document", 1);
+        // 5. re-encoder boundary classes (validity of `char` from the unchecked conversions)
+        for enc in crate::c07::ENCS {
+            let mut b = vec![];
+            let units: [u32; 10] = [0x61, 0xD7FF, 0xE000, 0xFFFF, 0xD800, 0xDBFF, 0xDC00, 0xDFFF, 0x10FFFF, 0x110000];
+            let pick = [units[idx % 10], units[(idx / 10) % 10], units[(idx / 100) % 10]];
+            for u in pick {
+                if enc.is16() {
+                    if u > 0xFFFF {
+                        if let Some(ch) = char::from_u32(u) {
+                            let mut tmp = [0u16; 2];
+                            for x in ch.encode_utf16(&mut tmp) {
+                                enc.unit16(*x, &mut b);
+                            }
+                        }
+                    } else {
+                        enc.unit16(u as u16, &mut b);
+                    }
+                } else {
+                    enc.unit32(u, &mut b);
+                }
+            }
+            let r = guarded_any(|| {
+                let src = std::io::BufReader::with_capacity(1 + idx % 5, &b[..]);
+                let mut rd = xt::verif::yaml_reencoder_as(src, enc.name()).unwrap();
+                let mut buf = [0u8; 3];
+                let mut n = 0;
+                loop {
+                    match std::io::Read::read(&mut rd, &mut buf[..1 + n % 3]) {
+                        Ok(0) | Err(_) => break,
+                        Ok(m) => n += m,
+                    }
+                }
+                n
+            });
+            bump(if r.is_ok() { "reencoder_boundary_cases" } else { "reencoder_panicked" }, 1);
+        }
+    }
+    for (name, n) in crate::run::hits() {
+        if n > 0 {
+            bump(&format!("hit_{name}"), n);
+        }
+    }
+    c
 }
-pub fn replay(_case: &serde_json::Value) -> i32 {
-    println!("replay not built yet");
-    2
-}
+
+/// Entry point of the sanitizer binary.
 pub fn san_main() -> i32 {
-    2
+    crate::run::install_quiet_panic_hook();
+    let args: Vec<String> = std::env::args().collect();
+    let get = |k: &str, d: usize| -> usize { args.iter().position(|a| a == k).and_then(|p| args.get(p + 1)).and_then(|v| v.parse().ok()).unwrap_or(d) };
+    let miri = args.iter().any(|a| a == "--miri");
+    if args.get(1).map(|s| s.as_str()) != Some("workload") {
+        eprintln!("usage: xtv_san workload --seed N --shard I --of N --cases N [--miri] [--selftest-leak|--selftest-uaf]");
+        return 2;
+    }
+    if args.iter().any(|a| a == "--selftest-leak") {
+        // used once by the harness to show that the leak detector is alive
+        planted_leak();
+        println!("leaked memory on purpose");
+        return 0;
+    }
+    let c = workload(get("--seed", 0) as u64, get("--shard", 0), get("--of", 1), get("--cases", 10), miri);
+    println!("XTV-SAN-SUMMARY {}", serde_json::to_string(&c).unwrap());
+    0
+}
+
+#[inline(never)]
+fn planted_leak() {
+    for i in 0..64usize {
+        let b = std::hint::black_box(vec![i as u8; 1000 + i].into_boxed_slice());
+        std::hint::black_box(Box::leak(b));
+    }
+    // overwrite whatever stack slots still hold the pointers
+    let junk = std::hint::black_box([0usize; 512]);
+    std::hint::black_box(&junk);
+}
+
+fn san_bin() -> String {
+    std::env::var("XTV_SAN_BIN").unwrap_or_else(|_| "/verif/out/target-asan/x86_64-unknown-linux-gnu/release/xtv_san".into())
+}
+
+struct ShardResult {
+    exit: Option<i32>,
+    signal: Option<i32>,
+    summary: Option<serde_json::Map<String, Value>>,
+    log: String,
+}
+
+fn run_shards(cmds: Vec<Command>, log_prefix: &str, out_dir: &str) -> Vec<ShardResult> {
+    let mut children = vec![];
+    for (i, mut c) in cmds.into_iter().enumerate() {
+        c.stdout(Stdio::piped()).stderr(Stdio::piped());
+        children.push((i, c.spawn()));
+    }
+    let mut res = vec![];
+    for (i, ch) in children {
+        match ch {
+            Err(e) => res.push(ShardResult { exit: None, signal: None, summary: None, log: format!("spawn failed: {e}") }),
+            Ok(ch) => {
+                let out = ch.wait_with_output();
+                match out {
+                    Err(e) => res.push(ShardResult { exit: None, signal: None, summary: None, log: format!("wait failed: {e}") }),
+                    Ok(o) => {
+                        use std::os::unix::process::ExitStatusExt;
+                        let so = String::from_utf8_lossy(&o.stdout).into_owned();
+                        let se = String::from_utf8_lossy(&o.stderr).into_owned();
+                        let summary = so.lines().find_map(|l| l.strip_prefix("XTV-SAN-SUMMARY ")).and_then(|j| serde_json::from_str::<Value>(j).ok()).and_then(|v| v.as_object().cloned());
+                        let path = format!("{out_dir}/logs/{log_prefix}-{i}.log");
+                        let _ = std::fs::write(&path, format!("--- stdout ---\n{so}\n--- stderr ---\n{se}"));
+                        res.push(ShardResult { exit: o.status.code(), signal: o.status.signal(), summary, log: path });
+                    }
+                }
+            }
+        }
+    }
+    res
+}
+
+pub fn run(ctx: &Ctx) -> i32 {
+    let out_dir = std::env::var("XTV_OUT").unwrap_or_else(|_| "/verif/out".into());
+    let _ = std::fs::create_dir_all(format!("{out_dir}/logs"));
+    let mut acc = Acc::default();
+    let shards = crate::par::threads().min(16);
+    // ---- 1. ASan + LSan ----
+    let cases_per_shard = ctx.size(60, 3000);
+    let bin = san_bin();
+    if !std::path::Path::new(&bin).exists() {
+        println!("INCONCLUSIVE property=C17 sanitizer binary missing: {bin}");
+        return 2;
+    }
+    // the leak detector must be alive: a planted leak has to be reported
+    {
+        let o = Command::new(&bin).args(["workload", "--selftest-leak"]).env("ASAN_OPTIONS", "detect_leaks=1:halt_on_error=1:exitcode=66").env("LSAN_OPTIONS", "exitcode=67").output();
+        match o {
+            Ok(o) if o.status.code() == Some(67) || String::from_utf8_lossy(&o.stderr).contains("LeakSanitizer") => acc.count("leak_detector_selftest_fired"),
+            Ok(o) => acc.harness_errors.push(format!("LeakSanitizer self-test did not fire (exit {:?})", o.status.code())),
+            Err(e) => acc.harness_errors.push(format!("cannot run the sanitizer binary: {e}")),
+        }
+    }
+    let cmds: Vec<Command> = (0..shards)
+        .map(|i| {
+            let mut c = Command::new(&bin);
+            c.args(["workload", "--seed", &ctx.seed.to_string(), "--shard", &i.to_string(), "--of", &shards.to_string(), "--cases", &cases_per_shard.to_string()]);
+            c.env("ASAN_OPTIONS", "detect_leaks=1:halt_on_error=1:abort_on_error=0:exitcode=66:allocator_may_return_null=1").env("LSAN_OPTIONS", "exitcode=67");
+            c
+        })
+        .collect();
+    let res = run_shards(cmds, &format!("c17-asan-s{}", ctx.seed), &out_dir);
+    let mut totals: std::collections::BTreeMap<String, u64> = Default::default();
+    for (i, r) in res.iter().enumerate() {
+        acc.evals += 1;
+        let clean = r.exit == Some(0) && r.summary.is_some();
+        if clean {
+            acc.count("asan_shards_clean");
+            for (k, v) in r.summary.as_ref().unwrap() {
+                *totals.entry(k.clone()).or_insert(0) += v.as_u64().unwrap_or(0);
+            }
+        } else {
+            let text = std::fs::read_to_string(&r.log).unwrap_or_default();
+            let first = text.lines().find(|l| l.contains("ERROR: AddressSanitizer") || l.contains("ERROR: LeakSanitizer") || l.contains("SUMMARY:")).unwrap_or("no sanitizer banner; see log").to_string();
+            acc.violation(Violation { sig: format!("sanitizer report: {}", ev::truncate(&crate::c02_mask(&first), 90)), case: json!({"instrument": "asan", "shard": i, "of": shards, "cases": cases_per_shard, "seed": ctx.seed, "log": r.log}), observed: format!("shard {i} ended with exit {:?} signal {:?}: {first}", r.exit, r.signal), expected: "exit 0 and no AddressSanitizer/LeakSanitizer report".into() });
+        }
+    }
+    // ---- 2. Miri ----
+    let miri_cases = ctx.size(2, 20);
+    let harness_dir = format!("{}/harness", ctx.verif_dir);
+    let miri_cmd = |shard: usize, cases: usize| {
+        let mut c = Command::new("cargo");
+        c.current_dir(&harness_dir).args(["+nightly", "miri", "run", "--offline", "--bin", "xtv_san", "--", "workload", "--miri", "--seed", &ctx.seed.to_string(), "--shard", &shard.to_string(), "--of", &shards.to_string(), "--cases", &cases.to_string()]);
+        c.env("CARGO_TARGET_DIR", format!("{out_dir}/target-miri")).env("CARGO_NET_OFFLINE", "true").env("MIRIFLAGS", "-Zmiri-disable-isolation").env_remove("RUSTFLAGS");
+        c
+    };
+    // warm-up (builds once), then all shards in parallel
+    let warm = run_shards(vec![miri_cmd(0, 0)], &format!("c17-miri-warm-s{}", ctx.seed), &out_dir);
+    if warm[0].exit != Some(0) {
+        acc.harness_errors.push(format!("Miri warm-up run failed (see {})", warm[0].log));
+    } else {
+        let res = run_shards((0..shards).map(|i| miri_cmd(i, miri_cases)).collect(), &format!("c17-miri-s{}", ctx.seed), &out_dir);
+        for (i, r) in res.iter().enumerate() {
+            acc.evals += 1;
+            if r.exit == Some(0) && r.summary.is_some() {
+                acc.count("miri_shards_clean");
+                for (k, v) in r.summary.as_ref().unwrap() {
+                    *totals.entry(format!("miri_{k}")).or_insert(0) += v.as_u64().unwrap_or(0);
+                }
+            } else {
+                let text = std::fs::read_to_string(&r.log).unwrap_or_default();
+                let first = text.lines().find(|l| l.contains("Undefined Behavior") || l.starts_with("error")).unwrap_or("no Miri diagnostic; see log").to_string();
+                if text.contains("Undefined Behavior") || text.contains("memory leaked") {
+                    acc.violation(Violation { sig: format!("Miri: {}", ev::truncate(&crate::c02_mask(&first), 90)), case: json!({"instrument": "miri", "shard": i, "of": shards, "cases": miri_cases, "seed": ctx.seed, "log": r.log}), observed: first, expected: "no undefined behaviour, no leak".into() });
+                } else {
+                    acc.harness_errors.push(format!("Miri shard {i} failed without a UB diagnostic (see {})", r.log));
+                }
+            }
+        }
+    }
+    // ---- 3. valgrind memcheck on the shipped binary (thorough) ----
+    if ctx.thorough() {
+        let sc = crate::procmon::Scratch::new();
+        let seeds = corpus::seeds();
+        let mut n = 0;
+        for (i, s) in seeds.iter().enumerate().filter(|(_, s)| s.fmt == Some(Fmt::Yaml)).take(40) {
+            let name = format!("v{i}.yaml");
+            sc.file(&name, &s.bytes);
+            let o = Command::new("valgrind").args(["--error-exitcode=88", "--leak-check=full", "-q"]).arg(crate::procmon::release_bin()).args(["-t", "json", &name]).current_dir(sc.path()).stdout(Stdio::null()).stderr(Stdio::piped()).output();
+            if let Ok(o) = o {
+                n += 1;
+                acc.evals += 1;
+                if o.status.code() == Some(88) {
+                    acc.violation(Violation { sig: "valgrind memcheck report on the release binary".into(), case: json!({"instrument": "valgrind", "input_hex": crate::model::hex(&s.bytes)}), observed: ev::truncate(&String::from_utf8_lossy(&o.stderr), 400), expected: "no memcheck error".into() });
+                }
+            }
+        }
+        acc.add("valgrind_runs", n);
+    }
+    // ---- conservation invariant ----
+    let g = |k: &str| totals.get(k).copied().unwrap_or(0);
+    for pre in ["", "miri_"] {
+        let (pn, pd, en, ed) = (g(&format!("{pre}hit_PARSER_NEW")), g(&format!("{pre}hit_PARSER_DROP")), g(&format!("{pre}hit_EVENT_NEW")), g(&format!("{pre}hit_EVENT_DROP")));
+        if pn != pd || en != ed {
+            acc.violation(Violation { sig: "parser/event creations and drops do not balance".into(), case: json!({"instrument": "conservation", "prefix": pre}), observed: format!("Parser new {pn} / drop {pd}; Event new {en} / drop {ed}"), expected: "every Parser and Event dropped exactly once".into() });
+        }
+    }
+    for (k, v) in &totals {
+        acc.add(k, *v);
+    }
+    // distinct non-trivial: inputs driven under the sanitizers
+    for i in 0..(g("inputs") + g("miri_inputs")) {
+        acc.distinct(&i);
+    }
+    acc.sample(json!({"asan_shards": shards, "cases_per_shard": cases_per_shard, "miri_cases_per_shard": miri_cases, "example_shard_command": format!("{bin} workload --seed {} --shard 0 --of {shards} --cases {cases_per_shard}", ctx.seed)}));
+    let rule = format!("AddressSanitizer+LeakSanitizer: {} shards x {} corpus inputs (mixed corpus, UTF-16/32 re-encodings) each driven as YAML explicit and detected through the public API with read sizes 1..17 / random / whole, reader errors at sampled offsets, over-reporting readers (excess 1..64, first/second/third call) straight into the raw parser and the chunker via the hook and through the public API, early drop of the parser after EVERY event count, chunker abandoned after one document, re-encoder surrogate/range boundary units; Miri: {} shards x {} seed inputs of the same workload; valgrind memcheck on the release binary in the thorough tier; conservation of Parser/Event new vs drop; distinct non-trivial = inputs driven", shards, cases_per_shard, shards, miri_cases);
+    let mut extra = serde_json::Map::new();
+    extra.insert("explanation".into(), json!("sanitizer verdict: zero AddressSanitizer/LeakSanitizer/Miri reports over the executed workload; a clean run says nothing about paths the workload did not reach"));
+    let mut f = Finish { ctx, level: "other", rule, assumptions: vec!["red-zone tools miss intra-object overflows; Miri covers part of that gap on the smaller workload".into(), "panics are an allowed outcome for contract-violating readers and are counted".into()], extra, exhaustive: false, min_distinct: 100, must_reach: vec![("leak_detector_selftest_fired".into(), 1), ("asan_shards_clean".into(), shards as u64), ("miri_shards_clean".into(), shards as u64), ("hit_READ_HANDLER_OVER_REPORT".into(), 10), ("hit_READ_HANDLER_ERROR".into(), 10), ("early_drop_points".into(), 1000)] };
+    if !acc.violations.is_empty() {
+        f.must_reach.clear();
+    }
+    ev::finish(f, acc)
+}
+
+pub fn replay(v: &Value) -> i32 {
+    let c = &v["case"];
+    match c["instrument"].as_str() {
+        Some("asan") => {
+            let o = Command::new(san_bin()).args(["workload", "--seed", &c["seed"].to_string(), "--shard", &c["shard"].to_string(), "--of", &c["of"].to_string(), "--cases", &c["cases"].to_string()]).env("ASAN_OPTIONS", "detect_leaks=1:halt_on_error=1:exitcode=66").env("LSAN_OPTIONS", "exitcode=67").status();
+            match o {
+                Ok(s) if s.success() => {
+                    println!("not reproduced");
+                    0
+                }
+                Ok(s) => {
+                    println!("VIOLATION property=C17 replay=<this file> (reproduced): exit {:?}", s.code());
+                    1
+                }
+                Err(e) => {
+                    println!("cannot run: {e}");
+                    2
+                }
+            }
+        }
+        _ => {
+            println!("re-run ./check C17 to reproduce Miri / valgrind / conservation findings (log: {})", c["log"]);
+            2
+        }
+    }
 }
